@@ -80,6 +80,11 @@ def event_values(k, fraction):
     lon = (-12000 + 37 * (k % 4000)) / 1000
     depth = (10 + 55 * (k % 4000)) / 10
     mag = (4000 + 7 * (k % 4000)) / 1000
+    if k % 7 == 4:
+        # values whose shortest decimal spelling uses exponent notation (e.g. 5e-05), negative zero-ish and integral values
+        lat, lon, depth = (-3 - k % 50) * 1e-07, (5 + k % 50) * 1e-05, (1 + k % 9) * 1e-05
+    elif k % 7 == 6:
+        lat, lon, depth, mag = float(-(k % 80)), float(k % 170), float(k % 600), float(3 + k % 6)
     return ('ev%d' % k, ms, lat, lon, depth, mag)
 
 
